@@ -9,13 +9,14 @@ pid, which = sys.argv[1], sys.argv[2]
 outname = which
 if len(sys.argv) > 3 and sys.argv[3] == "--auto":
     # round 2: deliverables in /tmp/wt2_<ID>/_out/<A|B>, HOWTO.txt starts with DEST: and RUN: lines; stored as <ID>-C / <ID>-D
-    src = "/tmp/wt2_%s/_out/%s" % (pid, which)
+    rnd = os.environ.get("SEED_ROUND", "2")
+    src = "/tmp/wt%s_%s/_out/%s" % (rnd, pid, which)
     lines = open(os.path.join(src, "HOWTO.txt")).read().splitlines()
     demo_dest = next(l for l in lines if l.startswith("DEST:")).split(":", 1)[1].strip()
     runline = next(l for l in lines if l.startswith("RUN:")).split(":", 1)[1].strip()
     import shlex
     demo_cmd = [a for a in shlex.split(runline) if "=" not in a or not a.split("=")[0].isupper()]
-    outname = {"A": "C", "B": "D"}[which]
+    outname = {"2": {"A": "C", "B": "D"}, "3": {"A": "E", "B": "F"}}[rnd][which]
 else:
     demo_dest = sys.argv[3]
     demo_cmd = sys.argv[4:]
